@@ -166,6 +166,7 @@ var Mutants = map[string][]Mutant{
 		{"Join passes radians to ArcTo", "path.go", `p\.ArcTo\(d\[1\], d\[2\], d\[3\]\*180\.0/math\.Pi, large, sweep, d\[5\], d\[6\]\)`, `p.ArcTo(d[1], d[2], d[3], large, sweep, d[5], d[6])`, "E8.units"},
 	},
 	"C08": {
+		{"radii correction rotates the chord by +phi", "path_util.go", `(?s)(func ellipseRadiiCorrection\(.*?)x1p := \(cosphi\*diff\.X \+ sinphi\*diff\.Y\) / 2\.0\n\ty1p := \(-sinphi\*diff\.X \+ cosphi\*diff\.Y\) / 2\.0`, "${1}x1p := (cosphi*diff.X - sinphi*diff.Y) / 2.0\n\ty1p := (sinphi*diff.X + cosphi*diff.Y) / 2.0", "E3.ellipse-frame"},
 		{"Transform keeps the arc rotation for |m00| == |m11|", "path.go", `(?s)(func \(p \*Path\) Transform\(m Matrix\) \*Path \{.*?\t\t\tend := Point\{p\.d\[i\+5\], p\.d\[i\+6\]\}\n)(\n\t\t\t// For ellipses written as the conic)`, "${1}\t\t\tif Equal(m[0][1], 0.0) && Equal(m[1][0], 0.0) && Equal(math.Abs(m[0][0]), math.Abs(m[1][1])) {\n\t\t\t\tif xscale*yscale < 0.0 {\n\t\t\t\t\tsweep = !sweep\n\t\t\t\t}\n\t\t\t\tend = m.Dot(end)\n\t\t\t\tp.d[i+1], p.d[i+2], p.d[i+4] = rx*math.Abs(m[0][0]), ry*math.Abs(m[0][0]), fromArcFlags(large, sweep)\n\t\t\t\tp.d[i+5], p.d[i+6] = end.X, end.Y\n\t\t\t\ti += cmdLen(cmd)\n\t\t\t\tcontinue\n\t\t\t}\n${2}", "E11.arc-rotation-rewritten"},
 		{"quad bounds: the y extreme only when there is no x extreme", "path.go", `(?s)(\t\t\tif tdenom := \(start\.X - 2\*cp\.X \+ end\.X\); !Equal\(tdenom, 0\.0\) \{\n(?:\t\t\t\t[^\n]*\n)+?\t\t\t\})\n\n(\t\t\tymin = math\.Min\(ymin, end\.Y\)\n\t\t\tymax = math\.Max\(ymax, end\.Y\)\n)\t\t\tif (tdenom := \(start\.Y - 2\*cp\.Y \+ end\.Y\))`, "${2}${1} else if ${3}", "E3.axes-exclusive"},
 		{"angleBetween wraps at most once instead of normalising", "util.go", `(?s)\ttheta = angleNorm\(theta - lower \+ Epsilon\)\n\tupper = angleNorm\(upper - lower \+ 2\.0\*Epsilon\)\n\treturn theta <= upper\n`, "\ttheta -= lower\n\tif theta < -Epsilon {\n\t\ttheta += 2.0 * math.Pi\n\t} else if 2.0*math.Pi-Epsilon <= theta {\n\t\ttheta -= 2.0 * math.Pi\n\t}\n\treturn Interval(theta, 0.0, upper-lower)\n", "E11.angle-range-normalised"},
@@ -201,6 +202,7 @@ var Mutants = map[string][]Mutant{
 		{"quad case reads offset 5", "path.go", `\t\tcase QuadToCmd:\n\t\t\tcp := Point\{p\.d\[i\+1\], p\.d\[i\+2\]\}\n\t\t\tend = Point\{p\.d\[i\+3\], p\.d\[i\+4\]\}\n\t\t\txmin = math\.Min\(xmin, math\.Min\(cp\.X, end\.X\)\)`, "\t\tcase QuadToCmd:\n\t\t\tcp := Point{p.d[i+1], p.d[i+2]}\n\t\t\tend = Point{p.d[i+5], p.d[i+6]}\n\t\t\txmin = math.Min(xmin, math.Min(cp.X, end.X))", "E2.layout"},
 	},
 	"C10": {
+		{"QuadTo line test from the start only", "path.go", `\(start\.Equals\(cp\) \|\| angleEqual\(end\.Sub\(start\)\.AngleBetween\(cp\.Sub\(start\)\), 0\.0\)\) && \(end\.Equals\(cp\) \|\| angleEqual\(end\.Sub\(start\)\.AngleBetween\(end\.Sub\(cp\)\), 0\.0\)\)`, "(start.Equals(cp) || end.Equals(cp) || angleEqual(end.Sub(start).AngleBetween(cp.Sub(start)), 0.0))", "E11.quad-line-test-mirror"},
 		{"Arc hands the rotation in degrees to EllipsePos", "path.go", `p0 := EllipsePos\(rx, ry, phi, 0\.0, 0\.0, theta0\)`, "p0 := EllipsePos(rx, ry, rot, 0.0, 0.0, theta0)", "E8.units"},
 		{"status Remove rebalances once instead of every ancestor", "path_intersection.go", `for ; ancestor != nil; ancestor = ancestor\.parent \{`, "if ancestor != nil {", "E9.moved-node-height"},
 		{"smooth cubic after a relative smooth cubic is not reflected", "path.go", `prevCmd == 'C' \|\| prevCmd == 'c' \|\| prevCmd == 'S' \|\| prevCmd == 's'`, "prevCmd == 'C' || prevCmd == 'c' || prevCmd == 'S'", "E11.svg-smooth"},
@@ -243,6 +245,7 @@ var Mutants = map[string][]Mutant{
 		{"number table larger than the buffer", "path.go", `\t\t'A': 7,\n`, "\t\t'A': 8,\n", "E4.table-bound"},
 	},
 	"C12": {
+		{"SVG image moved up by the rectangle's Max.Y", "renderers/svg/svg.go", `(?s)(func \(r \*SVG\) RenderImage\(.*?)m\.Translate\(0(?:\.0)?, float64\(size\.Y\)\)`, "${1}m.Translate(0.0, float64(img.Bounds().Max.Y))", "E11.image-extent-from-size"},
 		{"ToSVG forgets the pen after an arc", "path.go", `(func \(p \*Path\) ToSVG\(\) string \{(?:.*\n)*?\t\t\tlarge, sweep := toArcFlags\(p\.d\[i\+4\]\)\n\t\t\t)x, y = p\.d\[i\+5\], p\.d\[i\+6\]\n`, "${1}", "E2.pen"},
 		{"opacity names remembered for the whole document", "renderers/pdf/writer.go", `(func \(w \*pdfWriter\) NewPage\((?:.*\n)*?\t\tgraphicsStates: )map\[float64\]pdfName\{\},`, "var sharedGS = map[float64]pdfName{}\n\n${1}sharedGS,", "E5.page-memo"},
 		{"PostScript outline fallback painted with the path's fill operator", "renderers/ps/ps.go", `(?s)(\tif style\.HasFill\(\) \{\n\t\tr\.setPaint\(style\.Fill\)\n)(.*)(\t\t\tr\.setPaint\(style\.Stroke\)\n\t\t\tr\.w\.Write\()\[\]byte\(" fill"\)\)`, "\tfillOp := []byte(\" fill\")\n\tif style.FillRule == canvas.EvenOdd {\n\t\tfillOp = []byte(\" eofill\")\n\t}\n${1}${2}${3}fillOp)", "E6.outline-nonzero"},
@@ -374,6 +377,7 @@ var Mutants = map[string][]Mutant{
 		{"Text.Heights uses the first line's top", "text.go", `\t_, ascent, _, _ := firstLine\.Heights\(t\.WritingMode\)`, "\tascent, _, _, _ := firstLine.Heights(t.WritingMode)", "E3.line-heights"},
 	},
 	"C17": {
+		{"glue after a forbidden penalty tried as a breakpoint", "text/linebreak.go", `if 0 < b && lb\.items\[b-1\]\.Type == BoxType && \(`, "if 0 < b && lb.items[b-1].Type != GlueType && (", "E4.glue-after-box"},
 		{"node dropped at a penalty because of the penalty's own width", "text/linebreak.go", `tooLong = lb\.width < \(lb\.W-active\.W\)-\(lb\.Z-active\.Z\)`, "tooLong = true", "E4.deactivation-without-penalty-width"},
 		{"line width computed at node creation", "text/linebreak.go", `(Fitness:  c,\n\t+)Width:    width,\n`, "${1}Width:    width - A[c].W,\n", "E11.break-width"},
 		{"start node taken for a flagged break", "text/linebreak.go", `if 0 < active\.Line && lb\.items\[active\.Position\]\.Flagged && item\.Flagged \{`, "if lb.items[active.Position].Flagged && item.Flagged {", "E4.flagged-pair-real-break"},
@@ -393,6 +397,7 @@ var Mutants = map[string][]Mutant{
 		{"Linebreak looks at items[b+1] unguarded", "text/linebreak.go", `\(len\(lb\.items\) <= b\+1 \|\| lb\.items\[b\+1\]\.Type != PenaltyType\)`, `lb.items[b+1].Type != PenaltyType`, "E4.neighbour-guard"},
 	},
 	"C18": {
+		{"width table read from the embedded program by code", "renderers/pdf/writer.go", `for subsetGlyphID, glyphID := range glyphIDs \{\n\t\twidths\[subsetGlyphID\] = int\(f\*float64\(font\.SFNT\.GlyphAdvance\(glyphID\)\) \+ 0\.5\)`, "for subsetGlyphID := range glyphIDs {\n\t\twidths[subsetGlyphID] = int(f*float64(sfnt.GlyphAdvance(uint16(subsetGlyphID))) + 0.5)", "E5.width-id-space"},
 		{"WalkSpans swaps the face offsets in vertical modes", "text.go", `callback\(line\.y\+xOffset, -span\.X\+yOffset, span\)`, "callback(line.y-yOffset, -span.X-xOffset, span)", "E11.span-offset-axes"},
 		{"all bfchar entries in one block", "renderers/pdf/writer.go", `block := bfChar\[i:min\(i\+100, len\(bfChar\)\)\]`, "block := bfChar[i:]", "E5.cmap-block-limit"},
 		{"kerning adjustment truncated toward zero", "renderers/pdf/writer.go", `int\(math\.Round\(f \* float64\(kern\)\)\)|int\(math\.Round\(f\*float64\(kern\)\)\)`, "int(f*float64(kern) + 0.5)", "E5.signed-rounding"},
@@ -413,6 +418,7 @@ var Mutants = map[string][]Mutant{
 		{"vertical fonts written as horizontal", "renderers/pdf/writer.go", `w\.writeFonts\(w\.fontsV, true\)`, `w.writeFonts(w.fontsV, false)`, "E5.fontmaps"},
 	},
 	"C19": {
+		{"dasharray through SetDashes resets the dash offset", "svg.go", `svg\.ctx\.Style\.Dashes = svg\.parsePoints\(val\)`, "svg.ctx.SetDashes(0.0, svg.parsePoints(val)...)", "E11.svg-attribute-independence"},
 		{"RotateAbout corrects the translation of an identity receiver only", "util.go", `return m\.Translate\(x, y\)\.Rotate\(rot\)\.Translate\(-x, -y\)`, "m = m.Rotate(rot)\n\tp := m.Dot(Point{x, y})\n\tm[0][2] += x - p.X\n\tm[1][2] += y - p.Y\n\treturn m", "E11."},
 		{"a repeated close forgets the removed sub-path", "path.go", `(?s)\t\t\tif wasEmptyClosed \{.*?\} else \{\n\t\t\t\t(p1 = p\.StartPos\(\)\n)\t\t\t\t(p\.Close\(\)\n)\t\t\t\t(emptyClosed = !p\.Pos\(\)\.Equals\(p1\)\n)\t\t\t\}\n`, "\t\t\t_ = wasEmptyClosed\n\t\t\t${1}\t\t\t${2}\t\t\t${3}", "E11.empty-close-keeps-position"},
 		{"rgba premultiplied before the alpha is parsed", "svg.go", `(\t\tcol\.A = svg\.parseAlphaComponent\(comps\[3\]\)\n)(\t\tcol\.R = [^\n]*\n\t\tcol\.G = [^\n]*\n\t\tcol\.B = [^\n]*\n)`, "${2}${1}", "E11.zero-factor"},
